@@ -291,7 +291,8 @@ func (m *Machine) snapshot(v value) value {
 func (m *Machine) checkSat(c *Term) (SatResult, Model) {
 	if c.IsConst() {
 		if c.k != 0 {
-			return Sat, m.model
+			// a model of the *current* path condition (the cached one may predate a fork)
+			return Sat, m.currentModel()
 		}
 		return Unsat, nil
 	}
